@@ -352,4 +352,252 @@ Section Fold.
         cbn [map combine flat_map fst snd]. rewrite IHc. reflexivity. }
       rewrite Hx2 in Hx. subst x. rewrite (IH _ _ (clean_filter _ _ _ Hc) H). apply filter_filter.
   Qed.
+
+  (* the fold is not eligible for the min-count truncation (`take(min)`), or has no minimum *)
+  Definition no_min_limit (vs : list ir_vertex) (h : fold_hdr) (sub : ir_component) : Prop :=
+    forall m, get_min_fold_count_limit args h = Ok (Some m) ->
+      ((match c_outputs sub with [] => true | _ => false end)
+       && (match fo_fsout h with [] => true | _ => false end)
+       && negb (has_tag_on_fold_count vs h)) = false.
+
+  Lemma collect_no_min {A} (l : list A) maxl :
+    collect_fold_elements l maxl None = if match maxl with Some m => Z.ltb m (Z.of_nat (List.length l)) | None => false end
+                                        then None else Some l.
+  Proof. unfold collect_fold_elements. destruct maxl as [m|]; [destruct (Z.ltb m _)|]; reflexivity. Qed.
+
+  (* what fold_one yields for one prepared context *)
+  Lemma fold_one_spec (Pimp : list (fieldref * tagged) -> Prop) vs ss imp h sub sub_compute fromv maxl c c2 o :
+    (forall imp' cs' r', Pimp imp' -> Forall (clean imp') cs' -> Forall fresh cs' -> sub_compute cs' = Ok r' ->
+        map asg_of r' = flat_map (fun x => sem_comp re_match g args sub imp' (active x)) cs') ->
+    (forall a, Pimp (imports_of vs ss imp a (fo_imported h) imp)) ->
+    find_vertex vs (fo_from h) = Some fromv ->
+    get_max_fold_count_limit args h = Ok maxl ->
+    Forall (key_fresh imp) (fo_imported h) ->
+    clean imp c ->
+    same_core c c2 ->
+    imported_tags c2 = imports_of vs ss imp (asg_of c) (fo_imported h) imp ->
+    active c2 = act_at c (fo_from h) ->
+    fold_one fromv h sub_compute maxl None c2 = Ok o ->
+    (* the surviving context (before post-filters) stands for the assignment Sem builds, or the
+       fold was dropped because it exceeds the maximum — in which case Sem drops it too *)
+    match o with
+    | Some y =>
+        clean imp y /\ active y = act_at c (fo_from h) /\ vertices y = vertices c /\
+        folded_values y = folded_values c /\ lookup_N (fo_eid h) (folded_contexts c) = None /\
+        exists fe, folded_contexts y = folded_contexts c ++ [(fo_eid h, fe)] /\
+          match lookup_N (fo_from h) (vertices c) with
+          | Some (Some v) =>
+              exists els, fe = Some els /\
+                map asg_of els = flat_map (fun n => sem_comp re_match g args sub (imports_of vs ss imp (asg_of c) (fo_imported h) imp) (Some n))
+                                          (g_nbrs g (v_type fromv) (fo_name h) (fo_params h) v)
+          | _ => fe = None
+          end
+    | None =>
+        exists v, lookup_N (fo_from h) (vertices c) = Some (Some v) /\
+          step_fold re_match g args vs ss imp h (sem_comp re_match g args sub) (asg_of c) = []
+    end.
+  Proof.
+    intros Hsub Hpimp Ef Hmax Hfresh Hc Hsc Himp Hact H.
+    destruct Hc as (Hv & Hs & Hp & Hi). destruct Hsc as (S1 & S2 & S3 & S4 & S5 & S6).
+    unfold fold_one in H. cbv zeta in H. inv_bind H. inv_bind H.
+    set (imp' := imports_of vs ss imp (asg_of c) (fo_imported h) imp) in *.
+    set (ns := resolve_nbrs g (v_type fromv) (fo_name h) (fo_params h) c2) in *.
+    (* the sub-component run *)
+    assert (Hcomp : map asg_of x = flat_map (fun n => sem_comp re_match g args sub imp' (Some n)) ns).
+    { rewrite Himp in Hx.
+      assert (F1 : Forall (clean imp') (map (fun n : vertex => set_imported (ctx_new (Some n)) imp') ns)).
+      { apply Forall_forall. intros y Hy. apply in_map_iff in Hy. destruct Hy as (n & <- & _). repeat split; constructor. }
+      assert (F2 : Forall fresh (map (fun n : vertex => set_imported (ctx_new (Some n)) imp') ns)).
+      { apply Forall_forall. intros y Hy. apply in_map_iff in Hy. destruct Hy as (n & <- & _). repeat split. }
+      rewrite (Hsub imp' _ _ (Hpimp _) F1 F2 Hx).
+      rewrite flat_map_map. apply flat_map_ext_in. intros n _. reflexivity. }
+    unfold vertex_at in Hx0. rewrite S1 in Hx0.
+    destruct (lookup_N (fo_from h) (vertices c)) as [ov|] eqn:El; [|discriminate]. injection Hx0 as <-.
+    assert (Hns : ns = match ov with Some v => g_nbrs g (v_type fromv) (fo_name h) (fo_params h) v | None => [] end).
+    { subst ns. unfold resolve_nbrs. rewrite Hact. unfold act_at. rewrite El. destruct ov; reflexivity. }
+    assert (Hrest : forall fe,
+               (if has_key_N (fo_eid h) (folded_contexts c2)
+                then Panic "execution.rs:compute_fold folded_contexts.insert_or_error"
+                else Ok (Some (set_imported (set_folded_contexts c2 (folded_contexts c2 ++ [(fo_eid h, fe)]))
+                                 (fold_left (fun m t => match remove_ref t m with Some m' => m' | None => m end)
+                                            (fo_imported h)
+                                            (imported_tags (set_folded_contexts c2 (folded_contexts c2 ++ [(fo_eid h, fe)]))))))) = Ok o ->
+               exists y, o = Some y /\ clean imp y /\ active y = act_at c (fo_from h) /\ vertices y = vertices c /\
+                         folded_values y = folded_values c /\ lookup_N (fo_eid h) (folded_contexts c) = None /\
+                         folded_contexts y = folded_contexts c ++ [(fo_eid h, fe)]).
+    { intros fe Hr. destruct (has_key_N (fo_eid h) (folded_contexts c2)) eqn:Ehk; [discriminate|].
+      assert (Hlk : lookup_N (fo_eid h) (folded_contexts c) = None).
+      { unfold has_key_N in Ehk. rewrite S4 in Ehk. destruct (lookup_N (fo_eid h) (folded_contexts c)); [discriminate|reflexivity]. }
+      assert (Hrm : fold_left (fun m t => match remove_ref t m with Some m' => m' | None => m end) (fo_imported h)
+                      (imported_tags (set_folded_contexts c2 (folded_contexts c2 ++ [(fo_eid h, fe)]))) = imp).
+      { replace (imported_tags (set_folded_contexts c2 (folded_contexts c2 ++ [(fo_eid h, fe)]))) with (imported_tags c2)
+          by (destruct c2; reflexivity).
+        rewrite Himp. subst imp'. unfold imports_of. apply (remove_all_inserted _ _ _ Hfresh). }
+      rewrite Hrm in Hr. injection Hr as <-.
+      eexists. split; [reflexivity|].
+      destruct c2 as [a2 vs2 vals2 susp2 fcs2 fvs2 pb2 im2]. cbn in *. subst.
+      repeat split; auto. }
+    destruct ov as [v|].
+    - (* the fold's origin exists *)
+      rewrite collect_no_min in H.
+      destruct (match maxl with Some m => Z.ltb m (Z.of_nat (List.length x)) | None => false end) eqn:Emax.
+      + (* too many elements: dropped; Sem drops it as a count filter fails *)
+        injection H as <-. exists v. split; [reflexivity|].
+        destruct maxl as [m|]; [|discriminate]. apply Z.ltb_lt in Emax.
+        unfold step_fold. rewrite Ef, a_v_asg_of, El.
+        unfold imp', imports_of in Hcomp. rewrite Hns in Hcomp. rewrite <- Hcomp.
+        rewrite (max_limit_sound re_match g args vs ss imp _ (fo_from h) (v_type fromv) (Some v) h m _ Hmax); [reflexivity|].
+        rewrite map_length. exact Emax.
+      + destruct (Hrest (Some x) H) as (y0 & Hy0 & Hcl & Ha & Hvy & Hfv & Hlk & Hfc).
+        first [subst o | (injection Hy0 as <-)].
+        split; [assumption|]. split; [assumption|]. split; [assumption|]. split; [assumption|]. split; [assumption|].
+        exists (Some x). split; [assumption|]. exists x. split; [reflexivity|].
+        rewrite Hcomp, Hns. reflexivity.
+    - destruct (Hrest None H) as (y0 & Hy0 & Hcl & Ha & Hvy & Hfv & Hlk & Hfc).
+      first [subst o | (injection Hy0 as <-)].
+      split; [assumption|]. split; [assumption|]. split; [assumption|]. split; [assumption|]. split; [assumption|].
+      exists None. split; [assumption|reflexivity].
+  Qed.
+
+  Lemma forallb_ext {A} (f h : A -> bool) l : (forall x, f x = h x) -> forallb f l = forallb h l.
+  Proof. intros E. induction l as [|x l IH]; [reflexivity|]. cbn. now rewrite E, IH. Qed.
+
+  Lemma lookup_N_app_fresh {A} (k : N) (l : list (N * A)) v :
+    lookup_N k l = None -> lookup_N k (l ++ [(k, v)]) = Some v.
+  Proof.
+    induction l as [|[k' a] r IH]; cbn [app lookup_N]; [now rewrite N.eqb_refl|].
+    destruct (N.eqb k k'); [discriminate|exact IH].
+  Qed.
+
+  Lemma asg_of_folded y c eid fe :
+    vertices y = vertices c -> folded_contexts y = folded_contexts c ++ [(eid, fe)] ->
+    asg_of y = set_af (asg_of c) eid (option_map (map asg_of) fe).
+  Proof.
+    intros Hv Hf. rewrite !asg_of_eq. unfold set_af. cbn [a_v a_f]. rewrite Hv, Hf, map_app. reflexivity.
+  Qed.
+
+  (* what remains of one incoming context after the fold has been computed and its count filters applied *)
+  Definition after_fold (vs : list ir_vertex) (ss : list step) (imp : list (fieldref * tagged)) (h : fold_hdr)
+             (sub : ir_component) (c : ctx) (ys : list ctx) : Prop :=
+    map asg_of ys = step_fold re_match g args vs ss imp h (sem_comp re_match g args sub) (asg_of c) /\
+    Forall (fun y => clean imp y /\ vertices y = vertices c /\ folded_values y = folded_values c /\
+                     lookup_N (fo_eid h) (folded_contexts c) = None /\
+                     exists fe, folded_contexts y = folded_contexts c ++ [(fo_eid h, fe)]) ys.
+
+  Theorem fold_step_spec (Pimp : list (fieldref * tagged) -> Prop) vs ss imp h sub sub_compute cs r :
+    (forall imp' cs' r', Pimp imp' -> Forall (clean imp') cs' -> Forall fresh cs' -> sub_compute cs' = Ok r' ->
+        map asg_of r' = flat_map (fun x => sem_comp re_match g args sub imp' (active x)) cs') ->
+    (forall a, Pimp (imports_of vs ss imp a (fo_imported h) imp)) ->
+    no_min_limit vs h sub ->
+    Forall (key_fresh imp) (fo_imported h) ->
+    Forall (clean imp) cs ->
+    fold_step re_match g args vs ss h sub sub_compute cs = Ok r ->
+    exists yss, Forall2 (after_fold vs ss imp h sub) cs yss /\
+                mapM (fold_outputs_one g h sub) (List.concat yss) = Ok r.
+  Proof.
+    intros Hsub Hpimp Hnomin Hfresh Hc H. unfold fold_step in H.
+    inv_bind H. unfold vertex_of, expect_some in Hx. destruct (find_vertex vs (fo_from h)) as [fromv|] eqn:Ef; [|discriminate].
+    injection Hx as <-.
+    inv_bind H. apply (import_tags_spec vs ss imp) in Hx. rename x into cs1.
+    inv_bind H. assert (Hcs2 : x = map (fun y => set_active y (act_at y (fo_from h))) cs1).
+    { eapply mapM_ok_map; [|exact Hx0]. intros y z. apply activate_vertex_ok. }
+    subst x. clear Hx0.
+    inv_bind H. rename x into maxl. rename Hx0 into Hmax.
+    inv_bind H. rename x into minl0.
+    assert (Hminl : match minl0 with
+                    | Some m => if (match c_outputs sub with [] => true | _ => false end)
+                                   && (match fo_fsout h with [] => true | _ => false end)
+                                   && negb (has_tag_on_fold_count vs h) then Some m else None
+                    | None => None end = None).
+    { destruct minl0 as [m|]; [|reflexivity]. now rewrite (Hnomin m Hx0). }
+    cbv zeta in H. rewrite Hminl in H. clear Hminl Hx0.
+    inv_bind H. rename x into cs3.
+    change (filter_mapM _ (map (fun y => set_active y (act_at y (fo_from h))) cs1) = Ok cs3)
+      with (filter_mapM (fold_one fromv h sub_compute maxl None) (map (fun y => set_active y (act_at y (fo_from h))) cs1) = Ok cs3) in Hx0.
+    apply filter_mapM_ok in Hx0. destruct Hx0 as (-> & HallOk).
+    inv_bind H. rename x into cs4.
+    (* per-context analysis of the survivors *)
+    assert (Hper : exists yss0,
+               Forall2 (fun c ys => Forall (clean imp) ys /\
+                          ys = match fold_one fromv h sub_compute maxl None (set_active c (act_at c (fo_from h))) with
+                               | Ok (Some y) => [y] | _ => [] end) cs1 yss0 /\
+               flat_map (fun x => match fold_one fromv h sub_compute maxl None x with Ok (Some y) => [y] | _ => [] end)
+                        (map (fun y => set_active y (act_at y (fo_from h))) cs1) = List.concat yss0).
+    { clear H Hx0. revert cs Hc Hx. induction cs1 as [|y cs1 IH]; intros cs Hc Hx.
+      - exists []. split; constructor.
+      - inversion Hx as [|c ? cs' ? (Hs & Hi) Hx']; subst. inversion Hc as [|? ? Hc1 Hc2]; subst.
+        inversion HallOk as [|? ? (o & Ho) HallOk']; subst.
+        destruct (IH HallOk' cs' Hc2 Hx') as (yss0 & F & E).
+        eexists (_ :: yss0). split.
+        + constructor; [|exact F]. split; [|reflexivity].
+          rewrite Ho. destruct o as [y3|]; [|constructor].
+          assert (Hi' : imported_tags (set_active y (act_at y (fo_from h))) = imports_of vs ss imp (asg_of c) (fo_imported h) imp).
+          { replace (imported_tags (set_active y (act_at y (fo_from h)))) with (imported_tags y) by (destruct y; reflexivity).
+            rewrite Hi. destruct Hc1 as (_ & _ & _ & Hic). now rewrite Hic. }
+          assert (Hs' : same_core c (set_active y (act_at y (fo_from h)))).
+          { destruct Hs as (S1&S2&S3&S4&S5&S6). destruct y; cbn in *. repeat split; assumption. }
+          assert (Ha' : active (set_active y (act_at y (fo_from h))) = act_at c (fo_from h)).
+          { destruct Hs as (S1&_). unfold act_at. rewrite S1. destruct y; reflexivity. }
+          pose proof (fold_one_spec Pimp vs ss imp h sub sub_compute fromv maxl c _ _ Hsub Hpimp Ef Hmax Hfresh Hc1 Hs' Hi' Ha' Ho) as Hspec.
+          cbn beta iota in Hspec. destruct Hspec as (Hcl & _). constructor; [exact Hcl|constructor].
+        + cbn [map flat_map List.concat]. now rewrite E. }
+    destruct Hper as (yss0 & HF0 & Hcat). rewrite Hcat in Hx0.
+    assert (Hcl3 : Forall (clean imp) (List.concat yss0)).
+    { clear - HF0. induction HF0 as [|c ys l yss (Hcl & _) _ IH]; [constructor|]. cbn [List.concat]. apply Forall_app. auto. }
+    apply (post_filters_spec vs ss imp h (v_type fromv)) in Hx0; [|exact Hcl3]. subst cs4.
+    (* assemble per incoming context *)
+    exists (map (filter (fun c0 => forallb (fun pf => ppass vs ss imp h (v_type fromv) pf c0) (fo_post h))) yss0).
+    split.
+    - clear H Hcat Hcl3. revert cs Hc Hx yss0 HF0 HallOk.
+      induction cs1 as [|y cs1 IH]; intros cs Hc Hx yss0 HF0 HallOk.
+      + inversion Hx; subst. inversion HF0; subst. constructor.
+      + inversion Hx as [|c ? cs' ? (Hs & Hi) Hx']; subst. inversion Hc as [|? ? Hc1 Hc2]; subst.
+        inversion HF0 as [|? ys ? yss' (Hcl & Hys) HF0']; subst.
+        inversion HallOk as [|? ? (o & Ho) HallOk']; subst.
+        cbn [map]. constructor; [|apply (IH cs' Hc2 Hx' yss' HF0' HallOk')].
+        assert (Hi' : imported_tags (set_active y (act_at y (fo_from h))) = imports_of vs ss imp (asg_of c) (fo_imported h) imp).
+        { replace (imported_tags (set_active y (act_at y (fo_from h)))) with (imported_tags y) by (destruct y; reflexivity).
+          rewrite Hi. destruct Hc1 as (_ & _ & _ & Hic). now rewrite Hic. }
+        assert (Hs' : same_core c (set_active y (act_at y (fo_from h)))).
+        { destruct Hs as (S1&S2&S3&S4&S5&S6). destruct y; cbn in *. repeat split; assumption. }
+        assert (Ha' : active (set_active y (act_at y (fo_from h))) = act_at c (fo_from h)).
+        { destruct Hs as (S1&_). unfold act_at. rewrite S1. destruct y; reflexivity. }
+        pose proof (fold_one_spec Pimp vs ss imp h sub sub_compute fromv maxl c _ _ Hsub Hpimp Ef Hmax Hfresh Hc1 Hs' Hi' Ha' Ho) as Hspec.
+        rewrite Ho. cbn beta iota in Hspec. destruct o as [y3|].
+        * destruct Hspec as (Hcl3 & Hact & Hv3 & Hfv3 & Hlk & fe & Hfc & Hfe).
+          pose proof (asg_of_folded y3 c (fo_eid h) fe Hv3 Hfc) as Hasg.
+          unfold after_fold. cbn [filter].
+          assert (Hcount : count_left (fo_eid h) y3 = match fe with Some els => U64 (Z.of_nat (List.length els)) | None => Null end).
+          { unfold count_left. rewrite Hfc, (lookup_N_app_fresh _ _ fe Hlk). destruct fe; reflexivity. }
+          unfold step_fold. rewrite Ef, a_v_asg_of.
+          destruct (lookup_N (fo_from h) (vertices c)) as [[v|]|] eqn:El.
+          -- destruct Hfe as (els & -> & Hels). cbn [option_map] in Hasg.
+             fold (imports_of vs ss imp (asg_of c) (fo_imported h) imp). rewrite <- Hels.
+             rewrite map_length.
+             assert (Hpp : forallb (fun pf => ppass vs ss imp h (v_type fromv) pf y3) (fo_post h) =
+                           forallb (fun pf => filter_passes re_match (pf_op pf) true (U64 (Z.of_nat (List.length els)))
+                                                (option_map (arg_value g args vs ss imp (set_af (asg_of c) (fo_eid h) (Some (map asg_of els)))
+                                                               (fo_from h) (v_type fromv) (Some v)) (pf_arg pf))) (fo_post h)).
+             { apply forallb_ext. intros pf. unfold ppass. rewrite Hcount, Hasg, Hact. unfold act_at. rewrite El. reflexivity. }
+             rewrite Hpp.
+             match goal with |- context [if ?b then [y3] else []] => destruct b end.
+             ++ split; [cbn [map]; now rewrite Hasg|]. constructor; [|constructor].
+                split; [assumption|]. split; [assumption|]. split; [assumption|]. split; [assumption|]. eauto.
+             ++ split; [reflexivity|constructor].
+          -- subst fe. cbn [option_map] in Hasg.
+             assert (Hpp : forallb (fun pf => ppass vs ss imp h (v_type fromv) pf y3) (fo_post h) = true).
+             { apply forallb_forall. intros pf _. unfold ppass. rewrite Hact. unfold act_at. rewrite El. reflexivity. }
+             rewrite Hpp. split; [cbn [map]; now rewrite Hasg|]. constructor; [|constructor].
+             split; [assumption|]. split; [assumption|]. split; [assumption|]. split; [assumption|]. eauto.
+          -- subst fe. cbn [option_map] in Hasg.
+             assert (Hpp : forallb (fun pf => ppass vs ss imp h (v_type fromv) pf y3) (fo_post h) = true).
+             { apply forallb_forall. intros pf _. unfold ppass. rewrite Hact. unfold act_at. rewrite El. reflexivity. }
+             rewrite Hpp. split; [cbn [map]; now rewrite Hasg|]. constructor; [|constructor].
+             split; [assumption|]. split; [assumption|]. split; [assumption|]. split; [assumption|]. eauto.
+        * destruct Hspec as (v & El & Hnil). unfold after_fold. cbn [filter map]. rewrite Hnil. split; [reflexivity|constructor].
+    - assert (Hfc : filter (fun c0 => forallb (fun pf => ppass vs ss imp h (v_type fromv) pf c0) (fo_post h)) (List.concat yss0)
+                    = List.concat (map (filter (fun c0 => forallb (fun pf => ppass vs ss imp h (v_type fromv) pf c0) (fo_post h))) yss0)).
+      { clear. induction yss0 as [|ys yss IH]; [reflexivity|]. cbn [List.concat map]. now rewrite filter_app, IH. }
+      rewrite <- Hfc. exact H.
+  Qed.
 End Fold.
